@@ -3,17 +3,18 @@
 cd /verif
 PROPS=$(python3 -c "import sys; sys.path.insert(0,'/verif'); from checkconf import PROPS; print(' '.join(sorted(PROPS)))")
 OUT=seeded/harmless/MATRIX.tsv
-echo -e "rewrite\t$(echo $PROPS | tr ' ' '\t')" > $OUT
+[ -n "$1" ] && [ -f $OUT ] || echo -e "rewrite\t$(echo $PROPS | tr ' ' '\t')" > $OUT
 for f in ${@:-seeded/harmless/H*.diff}; do
   cd /repo; git status --short | grep -q . && { echo "/repo not clean"; exit 3; }
   git apply /verif/$f || { echo "$f does not apply"; continue; }
-  cd /verif; row=$(basename $f .diff)
+  cd /verif; name=$(basename $f .diff); row=$name
   for p in $PROPS; do
     r=$(./check $p 2>&1 | grep -E "^VIOLATION|: ok " | head -1)
-    if echo "$r" | grep -q "no-failing-input-found"; then v="V?"; elif echo "$r" | grep -q VIOLATION; then v="V"; cp evidence/replay/$p-*.ops seeded/harmless/alarm-$row-$p.ops; elif echo "$r" | grep -q ": ok"; then v="."; else v="ERR"; fi
+    if echo "$r" | grep -q "no-failing-input-found"; then v="V?"; elif echo "$r" | grep -q VIOLATION; then v="V"; cp "$(ls -t evidence/replay/$p-*.ops | head -1)" seeded/harmless/alarm-$name-$p.ops; elif echo "$r" | grep -q ": ok"; then v="."; else v="ERR"; fi
     row="$row\t$v"
   done
   cd /repo; git checkout -q -- .; cd /verif
+  grep -v "^$name	" $OUT > $OUT.tmp; mv $OUT.tmp $OUT
   echo -e "$row" | tee -a $OUT
 done
 cd /verif/harness && CARGO_NET_OFFLINE=true cargo build --offline 2>&1 | tail -1
